@@ -1,6 +1,7 @@
 import CookModel.Analysis.Collector
 import CookModel.Lemmas.ExtLawsStep
 import CookModel.Lemmas.ExtLawsAnalysis
+import CookModel.Lemmas.ExtLawsTimer
 import CookModel.Lemmas.LexLaws
 /-
   C02  Core-syntax recipes parse identically under every extension subset.
@@ -196,6 +197,76 @@ theorem C02_inline_off (env : Env) (t : Text) (items : List Item) (s : Col α)
     inStepTextStep env t items s =
       ((), { s with block := some (BlockBuf.step (items ++ [Item.text t.text])) }) :=
   inStepTextStep_inline_off env t items s h hd
+
+/-- TIMER_REQUIRES_TIME, the converse clause, for every name: on `~name` (a run of word/number
+    tokens after the `~`, no `{` before the next marker, no `(` right after the name, the name not
+    blank and its tokens adjacent) with the flag OFF the timer is accepted as written — a timer
+    event with that name and no quantity, spanning `~name`, the cursor after the name, and NO event
+    pushed (no error, no warning), no panic flag set -/
+theorem C02_timer_time_off (s : BP α) (t : Tok) (ht : s.toks[s.cur]? = some t) (hk : t.kind = .tilde)
+    (hl : longBody (s.toks.drop (s.cur + 1)) = none) (hne : shortName s ≠ [])
+    (hnote : ∀ t', s.toks[s.cur + 1 + (shortName s).length]? = some t' → t'.kind ≠ .openParen)
+    (hbad : (buildText (offAt s.toks (s.cur + 1)) (shortName s)).bad = false)
+    (hname : (buildText (offAt s.toks (s.cur + 1)) (shortName s)).isTextEmpty s.cs = false)
+    (hoff : s.ext.has Gen.EXT_TIMER_REQUIRES_TIME = false) :
+    timerP s =
+      (some (.timer ⟨⟨some (buildText (offAt s.toks (s.cur + 1)) (shortName s)), none⟩,
+          ⟨offAt s.toks s.cur, offAt s.toks (s.cur + 1 + (shortName s).length)⟩⟩),
+       { s with cur := s.cur + 1 + (shortName s).length }) := by
+  rw [timerP_short s t ht hk hl hne hnote hbad hname, hoff]
+  rfl
+
+/-- … and with the flag ON the same input yields the documented error `timer-missing-quantity`
+    (one error event, labelled at the end of the name) and the timer event carries the recovery
+    quantity; everything else (name, span, cursor, panic flag) is as with the flag off -/
+theorem C02_timer_time_on (s : BP α) (t : Tok) (ht : s.toks[s.cur]? = some t) (hk : t.kind = .tilde)
+    (hl : longBody (s.toks.drop (s.cur + 1)) = none) (hne : shortName s ≠ [])
+    (hnote : ∀ t', s.toks[s.cur + 1 + (shortName s).length]? = some t' → t'.kind ≠ .openParen)
+    (hbad : (buildText (offAt s.toks (s.cur + 1)) (shortName s)).bad = false)
+    (hname : (buildText (offAt s.toks (s.cur + 1)) (shortName s)).isTextEmpty s.cs = false)
+    (hon : s.ext.has Gen.EXT_TIMER_REQUIRES_TIME = true) :
+    timerP s =
+      (some (.timer ⟨⟨some (buildText (offAt s.toks (s.cur + 1)) (shortName s)), some recoverPQuantity⟩,
+          ⟨offAt s.toks s.cur, offAt s.toks (s.cur + 1 + (shortName s).length)⟩⟩),
+       { s with cur := s.cur + 1 + (shortName s).length,
+                evs := s.evs.push (.error ⟨.error, .parse, "timer-missing-quantity",
+                  [Span.pos (buildText (offAt s.toks (s.cur + 1)) (shortName s)).span.stop]⟩) }) := by
+  rw [timerP_short s t ht hk hl hne hnote hbad hname, hon]
+  rfl
+
+/-- the same for any body without quantity that `comp_body` returns (`~name` and `~name{}` alike,
+    `close` being the span of the braces): the flag decides between "accepted, nothing pushed" and
+    "error `timer-missing-quantity` at the braces (or at the end of the name) + recovery quantity";
+    all other extension bits are irrelevant here (no modifier character after the `~`, no `|` in
+    the name) -/
+theorem C02_timer_time_noQuantity (s : BP α) (t : Tok) (ht : s.toks[s.cur]? = some t) (hk : t.kind = .tilde)
+    (hmod : ∀ t', s.toks[s.cur + 1]? = some t' → isModStart t'.kind = false)
+    (name : List Tok) (close : Option Span) (c2 : Nat)
+    (hb : compBody ({ s with cur := s.cur + 1 } : BP α) = (some ⟨name, close, none⟩, { s with cur := c2 }))
+    (hor : name.any (fun t => t.kind == .or) = false)
+    (hnote : ∀ t', s.toks[c2]? = some t' → t'.kind ≠ .openParen)
+    (hbad : (buildText (offAt s.toks (s.cur + 1)) name).bad = false)
+    (hname : (buildText (offAt s.toks (s.cur + 1)) name).isTextEmpty s.cs = false) :
+    timerP s =
+      if s.ext.has Gen.EXT_TIMER_REQUIRES_TIME then
+        (some (.timer ⟨⟨some (buildText (offAt s.toks (s.cur + 1)) name), some recoverPQuantity⟩,
+            ⟨offAt s.toks s.cur, offAt s.toks c2⟩⟩),
+         { s with cur := c2,
+                  evs := s.evs.push (timerMissingQuantity close (buildText (offAt s.toks (s.cur + 1)) name)) })
+      else
+        (some (.timer ⟨⟨some (buildText (offAt s.toks (s.cur + 1)) name), none⟩,
+            ⟨offAt s.toks s.cur, offAt s.toks c2⟩⟩), { s with cur := c2 }) :=
+  timerP_noQuantity s t ht hk hmod name close c2 hb hor hnote hbad hname
+
+/-- the hypotheses are satisfiable: the block `Wait ~rest now` at the `~` (cursor 2) -/
+example : let s : BP Rat := ⟨C02.toks [(.word, ['W','a','i','t']), (.ws, [' ']), (.tilde, ['~']),
+      (.word, ['r','e','s','t']), (.ws, [' ']), (.word, ['n','o','w'])], 2, ⟨0⟩, toyCharSpec, #[], none⟩
+    (∃ t, s.toks[s.cur]? = some t ∧ t.kind = .tilde) ∧
+    longBody (s.toks.drop (s.cur + 1)) = none ∧ shortName s ≠ [] ∧
+    (∀ t', s.toks[s.cur + 1 + (shortName s).length]? = some t' → t'.kind ≠ .openParen) ∧
+    (buildText (offAt s.toks (s.cur + 1)) (shortName s)).bad = false ∧
+    (buildText (offAt s.toks (s.cur + 1)) (shortName s)).isTextEmpty s.cs = false := by
+  decide
 
 /-- a coarse observation of an event list (enough to tell the readings apart) -/
 def C02.evTag : Ev Rat → Nat
